@@ -393,6 +393,22 @@ pub fn c11(g: &mut G) {
             script.push(if i % 3 == 0 { Resp::Take(0) } else { Resp::Fail((i as u64) % 12) });
             g.emit(format!("sink 0 default {} - _ {}", script_str(&script), ops));
         }
+        // after a failed build, a DIFFERENT input on the same thread: whatever the failed build left
+        // behind (scratch tables, pooled caches) must not show in the next result
+        if calls.len() >= 30 {
+            let other_wide: Vec<Vec<u8>> = (0..45u8).map(|i| vec![0x41 + i]).collect();
+            let other = show_calls(&add_calls(&other_wide));
+            for i in 0..(w + 2).min(if g.thorough { 200 } else { 60 }) {
+                let mut script: Vec<Resp> = (0..i).map(|_| Resp::Take(1 << 20)).collect();
+                script.push(Resp::Fail((i as u64) % 12));
+                g.emit(format!("sink 0 default {} - _ {}", script_str(&script), ops));
+                g.emit(format!("sink 0 default - - _ {} set", other));
+                g.emit("has 40".into());
+                g.emit("has 7e".into());
+                g.emit("has 41".into());
+                g.emit("stream always - -".into());
+            }
+        }
         // the final flush fails
         for kind in 0..12 {
             g.emit(format!("sink 0 default - {} _ {}", kind, ops));
@@ -418,8 +434,16 @@ pub fn c11(g: &mut G) {
 
 pub fn c08(g: &mut G) {
     // file sizes at every residue around multiples of 64 KiB / 128 KiB; a file of 17 MiB
+    g.emit("!reuse 4".into());
+    g.emit("!conc 4".into());
     g.emit("!scale sizes".into());
     g.emit("!scale bigfile set 21".into());
+    // the command-line writer: fresh path and --force over a longer existing file
+    for (i, what) in ["set", "map", "union", "set", "map", "union"].iter().enumerate() {
+        let words = ["apple", "banana", "cherry", "damson", "elder", "fig", "grape", "k1", "k2", "zz"];
+        let rows: Vec<String> = (0..(3 + i)).map(|j| format!("{}:{}", hex(words[(j * 3 + i) % words.len()].as_bytes()), 1 + j)).collect();
+        g.emit(format!("!cli {} {} {}", what, if i < 3 { 0 } else { 900 }, rows.join(",")));
+    }
     // several MiB of multi-byte nodes (any checksum batching has to cope with writes that straddle its blocks)
     g.emit("!scale bigmap 700000".into());
     // checksum of arbitrary data across the 16-byte fast path boundary
